@@ -101,6 +101,39 @@ static std::vector<std::pair<T, T>> pairs(Rng& r, std::size_t nrandom) {
     std::vector<T> l = lattice<T>();
     for (T a : l)
         for (T b : l) p.push_back(std::make_pair(a, b));
+    if (sizeof(T) > 1) {
+        typedef typename std::make_unsigned<T>::type U;
+        // sums and differences next to zero / next to the wrap-around: (v, -v + d), (v, ~v + d), d in -2..2
+        for (T v : l)
+            for (int d = -2; d <= 2; ++d) {
+                p.push_back(std::make_pair(v, T(U(0) - U(v) + U(d))));
+                p.push_back(std::make_pair(T(U(0) - U(v) + U(d)), v));
+                p.push_back(std::make_pair(v, T(U(~U(v)) + U(d))));
+            }
+        // exact multiples and their neighbours (quotient boundaries): (k*b + d, b), d in -1..1
+        const std::size_t nm = nrandom / 3 + 40;
+        for (std::size_t i = 0; i < nm; ++i) {
+            T b = (i % 3 == 0) ? l[r.next() % l.size()] : random_value<T>(r);
+            if (b == 0) continue;
+            const bool neg = std::is_signed<T>::value && b < 0;
+            U mag = neg ? U(U(0) - U(b)) : U(b);
+            const U lim = std::is_signed<T>::value ? U(U(~U(0)) >> 1) : U(~U(0));
+            U kmax = U(lim / mag);
+            if (kmax < 2) continue;
+            U ks[4] = {U(2), U(3 + r.next() % 5), U(U(1) << (r.next() % (sizeof(T) * 8 - 1))), U(r.next())};
+            for (U k : ks) {
+                k = U(k % kmax) + 1;
+                if (k < 2) k = 2;
+                if (k > kmax) k = kmax;
+                U prod = U(mag * k);
+                for (int d = -1; d <= 1; ++d) {
+                    T a = T(U(prod + U(d)));
+                    p.push_back(std::make_pair(a, b));
+                    if (std::is_signed<T>::value) p.push_back(std::make_pair(T(U(0) - U(a)), b));
+                }
+            }
+        }
+    }
     if (sizeof(T) > 1)
         for (std::size_t i = 0; i < nrandom; ++i) {
             T a = random_value<T>(r), b = random_value<T>(r);
@@ -204,6 +237,15 @@ static std::vector<F> fp_lattice(int level) {
             }
         }
         for (int e = 1; e < 12; ++e) { m.push_back(mk(U(BIAS - e), 0)); m.push_back(mk(U(BIAS - e), FR)); m.push_back(mk(U(BIAS - e), 1)); }
+        // one set bit / a low mask / a high mask walking through the fraction, for the exponent fields whose
+        // classification depends on "fraction zero or not" (subnormals, NaN payloads) and their neighbours
+        const U exs[] = {0, 1, U(BIAS), EMAX - 1, EMAX};
+        for (U ex : exs)
+            for (int k = 0; k < P - 1; ++k) {
+                m.push_back(mk(ex, U(1) << k));
+                m.push_back(mk(ex, (U(1) << k) - 1));
+                m.push_back(mk(ex, FR ^ ((U(1) << k) - 1)));
+            }
     }
     std::sort(m.begin(), m.end());
     m.erase(std::unique(m.begin(), m.end()), m.end());
